@@ -5,6 +5,8 @@
 //    65535 per-part limit) x length passed per call (whole remainder | limited chunk);
 //    repeated mpt_linepart_linear advancing by `raw`; mpt_linepart_join over the adjacent parts;
 //    mpt_linepart_join on arbitrary records; mpt_linepart_code / mpt_linepart_real.
+//    C++ consumer: linepart::array::set/apply for one or two coordinates, drawn points taken from polyline::part::points()
+//    (check_drawn()).
 // O: see check_parts(): progress, sum raw == N, every in-range index in exactly one drawn window
 //    [o, o+usr), out-of-range points only at the first/last window position and then with the cut/trim
 //    fraction of the boundary crossing (1/65536), no fraction without a crossing; join keeps sum raw and
@@ -332,31 +334,40 @@ struct RangeTransform : public transform {
     return lp;
   }
 };
-// What polyline makes of a list of parts (polyline::part::points(), apply_data(), apply<>()): part k starts at the sum of
-// the earlier `raw`, covers `usr` points from there, and its first / last point is not a point of the line but the place
-// where it is cut when _cut / _trim is not zero. So the points drawn are [o + (cut ? 1 : 0), o + usr - (trim ? 1 : 0)).
-// Statement for any number of coordinates: a point is drawn exactly once iff it is in range in every dimension applied,
-// and never otherwise (an out-of-range end point of a window therefore has to carry a non-zero fraction).
+// What polyline makes of a list of parts (apply_data(), polyline::iterator, polyline::part): part k reads the raw values
+// from the sum of the earlier `raw`, owns `usr` consecutive points of the point array, and part::points() — the real
+// consumer, called here — leaves out the first / last of them when _cut / _trim is set (that point is the place where the
+// line is cut, not a point of the data). Statement for any number of coordinates: a point is drawn exactly once iff it is
+// in range in every dimension applied, and never otherwise (so an out-of-range end point of a window has to carry a
+// fraction), and points() stays inside the points the part owns.
 static void check_drawn(Ctx &c, const char *stage, size_t N, const std::vector<linepart> &parts, const std::vector<uint8_t> &visible) {
   std::vector<uint8_t> drawn(N, 0);
-  size_t off = 0;
+  size_t off = 0, total = 0;
+  for (const linepart &lp : parts) total += lp.usr;
+  std::vector<polyline::point> store(total + 2);
+  const polyline::point *pts = store.data();
   for (size_t k = 0; k < parts.size(); k++) {
     const linepart &lp = parts[k];
     VP_CHECK(c, off + lp.raw <= N, "raw-sum", "%s part %zu at %zu: raw %u runs past the %zu input points", stage, k, off, lp.raw, N);
     VP_CHECK(c, off + lp.usr <= N, "window-beyond-data", "%s part %zu at %zu: usr %u runs past the %zu input points", stage, k, off, lp.usr, N);
-    size_t ends = (lp._cut ? 1 : 0) + (lp._trim ? 1 : 0);
-    VP_CHECK(c, lp.usr >= ends, "fraction-on-empty-part", "%s part %zu at %zu: raw %u usr %u cut %u trim %u — polyline::part::points() computes a length of %ld", stage, k, off, lp.raw, lp.usr,
-             lp._cut, lp._trim, (long)lp.usr - (long)ends);
-    for (size_t j = lp._cut ? 1 : 0; j + (lp._trim ? 1 : 0) < lp.usr; j++) {
-      size_t i = off + j;
+    polyline::part pp(lp, pts);
+    span<const polyline::point> line = pp.line(), sp = pp.points();
+    VP_CHECK(c, line.begin() == pts && line.size() == (long)lp.usr, "points-span-outside-part", "%s part %zu: line() is not the %u points of the part", stage, k, lp.usr);
+    long first = sp.begin() ? (long)(sp.begin() - pts) : -1, cnt = sp.size();
+    VP_CHECK(c, cnt == 0 || (first >= 0 && cnt > 0 && first + cnt <= (long)lp.usr), "points-span-outside-part",
+             "%s part %zu at %zu {raw %u usr %u cut %u trim %u}: polyline::part::points() is [%ld, %ld + %ld) relative to the %u points the part owns", stage, k, off, lp.raw, lp.usr, lp._cut,
+             lp._trim, first, first, cnt, lp.usr);
+    for (long j = first; cnt > 0 && j < first + cnt; j++) {
+      size_t i = off + (size_t)j;
       if (!visible[i]) {
-        bool end = j == 0 || j + 1 == lp.usr;
+        bool end = j == 0 || j + 1 == (long)lp.usr;
         c.fail(end ? "end-point-without-fraction" : "drawn-outside-interior", "%s part %zu at %zu (raw %u usr %u cut %u trim %u): point %zu is out of range in some dimension and %s", stage, k, off,
                lp.raw, lp.usr, lp._cut, lp._trim, i, end ? "ends the drawn window without a cut/trim fraction" : "lies inside the drawn window");
       }
       if (drawn[i] < 2) ++drawn[i];
     }
     off += lp.raw;
+    pts += lp.usr;
   }
   VP_CHECK(c, off == N, "raw-sum", "%s: the parts cover %zu of %zu input points", stage, off, N);
   for (size_t i = 0; i < N; i++) {
@@ -609,7 +620,9 @@ static Target t = {
     "random: range (normal | min==max | min>max | one/both sides infinite | none) x run-length structured real sequence (below/at-min/inside/at-max/above realised next to, on and far "
     "from the bounds, |x| <= DBL_MAX/2, equal neighbours, runs around 65535) x length per call (whole remainder | fixed chunk | drawn); mpt_linepart_linear advanced by raw, "
     "mpt_linepart_join over adjacent parts and on arbitrary records, mpt_linepart_code/real on [0,1] and outside. exhaustive: all sequences of length <= 8 (thorough 9) over "
-    "{below,at-min,inside,at-max,above} for [1,3]; the same up to length 6 (8) with 1..3 points per call; run lengths 65533..65537 x head/body/last-but-one/last over {below,inside,above}. "
+    "{below,at-min,inside,at-max,above} for [1,3]; the same up to length 6 (8) with 1..3 points per call; run lengths 65533..65537 x head/body/last-but-one/last over {below,inside,above}; "
+    "linepart::array::apply for two coordinates ((x,y) sequences of length <= 6 (7) over {below,inside,above} x {inside,above}, from set(N) and from an empty array), where the points "
+    "polyline::part::points() serves have to be exactly the points in range in every coordinate applied. "
     "non-trivial: a part carries a cut or trim fraction, a join was accepted, the run is longer than 65535, a join hit the 16-bit limit, two fractions encode differently "
     "(all enumerated cases count); distinct by hash of the draw sequence.",
     run,
